@@ -53,11 +53,15 @@ DEPENDS = {
     'C04': ['C06'],
     'C10': ['C08'],
     'C11': ['C08'],
-    'C12': ['C08', 'C06'],
-    'C13': ['C06'],
+    # PDO behaviour rests on the timer manager, on the dictionary, on accepted reconfigurations being carried out
+    # (C14) and - for synchronous PDOs - on SYNC being recognised (C16)
+    'C12': ['C08', 'C06', 'C14', 'C16'],
+    'C13': ['C06', 'C14', 'C16'],
     'C14': ['C06'],
     'C16': ['C08'],
     'C19': ['C08'],
+    # "every service returns to the behaviour of a fresh node": the per-service reset / initialisation clauses
+    'C20': ['C05', 'C12', 'C13', 'C15'],
 }
 
 
@@ -103,7 +107,7 @@ PROPERTIES = {
         'not_decided': 'interleaving semantics under preemption',
     },
     'C13': {
-        'rules': ['RF5', 'RF6', 'PDO', 'RF14', 'HB'],
+        'rules': ['RF5', 'RF6', 'PDO', 'RF14', 'HB', 'NMT'],
         'technique': 'decision-table extraction (CORPdoCheck, CORPdoRx, layout with dummy entries), must-facts (NMT gate, pending marker), registration-bit typestate, interval analysis of mapping-table subscripts, non-null dataflow on the synchronous-RPDO table',
         'explanation': 'CORPdoCheck matches only enabled RPDOs with an equal identifier and searches past disabled channels; CORPdoRx: application veto respected, asynchronous written at once, synchronous buffered; synchronous application only in OPERATIONAL and only for a pending frame; payload layout: producer CORPdoGetMap and consumer CORPdoWrite agree on dummy entries (little-endian field starts after the dummy width); SYNC registration typestate; RF6 on CO_RPDO.Map/Size and the SYNC tables; RF5 on Sync.RPdo[i]; element consistency.',
         'not_decided': 'field values written',
@@ -170,7 +174,7 @@ PROPERTIES = {
         'not_decided': 'sequencing over command histories beyond what table + single writer imply',
     },
     'C18': {
-        'rules': ['LSS'],
+        'rules': ['LSS', 'NMT'],
         'exhaustive': True,
         'technique': 'decision-table extraction: service table vs CiA 305, every handler folded over its finite input '
                      'classes (step x lookup error x ordering of select/ident, all node ids, all table/index bytes)',
@@ -182,7 +186,7 @@ PROPERTIES = {
         'not_decided': 'sequence semantics beyond the step guards',
     },
     'C14': {
-        'rules': ['PDOCFG', 'RF6', 'PDO', 'RF14', 'OBJWR'],
+        'rules': ['PDOCFG', 'RF6', 'PDO', 'RF14', 'OBJWR', 'NMT'],
         'exhaustive': True,
         'technique': 'decision-table extraction: each PDO parameter Write function folded over valid bit x count x target '
                      'existence x access flags x new value classes; verdict = stored / refused-with-nothing-stored',
@@ -195,7 +199,7 @@ PROPERTIES = {
         'not_decided': 'interaction over write sequences beyond what the guards imply; activated PDO behaviour',
     },
     'C15': {
-        'rules': ['EMCY', 'OBJWR'],
+        'rules': ['EMCY', 'OBJWR', 'RESET'],
         'exhaustive': True,
         'technique': 'decision-table extraction over input classes, must-facts at the transmission site',
         'explanation': 'RF2: register update and EMCY frame only on a real transition (set/clear/reset, silent reset '
@@ -205,7 +209,7 @@ PROPERTIES = {
         'not_decided': 'register/counter consistency over call histories',
     },
     'C17': {
-        'rules': ['PARA', 'RF7'],
+        'rules': ['PARA', 'RF7', 'DICT'],
         'exhaustive': True,
         'technique': 'decision-table extraction over signature values, group counts, failure positions, enable flag and '
                      'driver byte counts',
@@ -229,13 +233,13 @@ PROPERTIES = {
         'technique': 'timer-handle typestate dataflow with callee summaries and requirement propagation; decision-table extraction by partial evaluation of the handlers over input classes; must-facts at transmission sites',
     },
     'C12': {
-        'rules': ['RF3', 'RF6', 'PDO', 'RF14', 'PDOCFG', 'OBJWR', 'DICT'],
+        'rules': ['RF3', 'RF6', 'PDO', 'RF14', 'PDOCFG', 'OBJWR', 'DICT', 'NMT'],
         'explanation': 'Transmission gates of COTPdoTx by must-facts (NMT, COB-ID valid, inhibit); RF3 H1/H2/H4/H5 for EvTmr/InTmr with the verified invariant (Flags & I) == 0 <=> InTmr released; transmission-type tables of COTPdoReset; SYNC counting (one increment per recognised SYNC for each registered TPDO, type n sends when the counter reaches n and restarts, type 0 every SYNC); TX/RX SYNC-table separation; SYNC registration bit typestate (COSyncAdd / COSyncRemove pairing with the S flag); live event-time write table for every value including 0; RF6 on Map[]/Size[] and the SYNC tables; element consistency of pdo[num].',
         'not_decided': 'emission timing multiset; payload bytes beyond the mapping layout',
         'technique': 'timer-handle typestate dataflow with callee summaries and requirement propagation; decision-table extraction by partial evaluation of the handlers over input classes; must-facts at transmission sites; interval analysis of the mapping tables',
     },
     'C16': {
-        'rules': ['RF3', 'SYNC', 'PDO', 'RESET', 'OBJWR'],
+        'rules': ['RF3', 'SYNC', 'PDO', 'RESET', 'OBJWR', 'NMT'],
         'explanation': '1005h and 1006h write rules with rollback (value based), cache coherence of Sync.CobId / Sync.Cycle with the dictionary, refusal changes nothing, producer started / stopped exactly when bit 30 changes and after the cache is updated; recognition identifier == CobId & 1FFFFFFFh for every DLC; producer send gate and zero-length frame; cycle -> ticks path (cyclic timer, start == cycle); RF3 for CO_SYNC.Tmr; SYNC registration typestate; RF9a/RF3-H1/H3: producer and cached identifier after reset communication (known findings).',
         'not_decided': 'period exactness',
         'technique': 'timer-handle typestate dataflow with callee summaries and requirement propagation; decision-table extraction by partial evaluation of the handlers over input classes; must-facts at transmission sites',
